@@ -26,6 +26,7 @@ type GenOpts struct {
 	Presence     bool
 	Unions       bool
 	Leafrefs     bool
+	ReuseNames   bool // some data nodes take the name of a node elsewhere in the tree (their parent's, a cousin's)
 	Augments     bool // some children are written in augment statements, some one-child cases in shorthand form
 }
 
@@ -35,7 +36,7 @@ var AllTypes = []string{"int8", "int16", "int32", "int64", "uint8", "uint16", "u
 // DefaultGen is a rich default configuration.
 func DefaultGen() GenOpts {
 	return GenOpts{Types: AllTypes, KeyTypes: []string{"string", "int32", "int64", "uint8", "boolean", "enumeration"}, MaxDepth: 3, MaxChildren: 5,
-		Lists: true, CompoundKeys: true, Choices: true, NestedChoice: true, LeafLists: true, Defaults: true, ConfigFalse: true, Presence: true, Unions: true, Augments: true, Leafrefs: true}
+		Lists: true, CompoundKeys: true, Choices: true, NestedChoice: true, LeafLists: true, Defaults: true, ConfigFalse: true, Presence: true, Unions: true, Augments: true, Leafrefs: true, ReuseNames: true}
 }
 
 type genState struct {
@@ -120,6 +121,9 @@ func GenModule(t *rapid.T, o GenOpts) *Module {
 	g := &genState{t: t, o: o, mod: &Module{Name: "gm"}}
 	n := rapid.IntRange(1, o.MaxChildren).Draw(t, "ntop")
 	g.mod.Top = g.children(n, 0, true)
+	if o.ReuseNames {
+		g.reuseNames()
+	}
 	if o.Leafrefs {
 		g.leafrefs()
 	}
@@ -170,6 +174,65 @@ func GenLayout(t *rapid.T, m *Module) {
 	}
 	for _, n := range m.Top {
 		walk(n, false)
+	}
+}
+
+// reuseNames renames some data nodes to a name that is in use elsewhere - their parent's or that of a node under another
+// parent - whenever the names visible in their own parent (through choices and cases, whose names count too) stay unique.
+func (g *genState) reuseNames() {
+	root := &Node{Kind: "module", Children: g.mod.Top}
+	var all []string
+	var collect func(n *Node)
+	collect = func(n *Node) {
+		for _, c := range n.Children {
+			if c.Kind != "choice" && c.Kind != "case" {
+				all = append(all, c.Name)
+			}
+			collect(c)
+		}
+	}
+	collect(root)
+	if len(all) < 2 {
+		return
+	}
+	// names visible in the data scope of a container / list / module
+	var scope func(n *Node, into map[string]bool)
+	scope = func(n *Node, into map[string]bool) {
+		for _, c := range n.Children {
+			into[c.Name] = true
+			if c.Kind == "choice" || c.Kind == "case" {
+				scope(c, into)
+			}
+		}
+	}
+	var walk func(holder, parent, n *Node)
+	walk = func(holder, parent, n *Node) {
+		if n.Kind != "choice" && n.Kind != "case" && rapid.IntRange(0, 5).Draw(g.t, "reuse-name?") == 0 {
+			want := holder.Name
+			if holder.Kind == "module" || rapid.Bool().Draw(g.t, "cousin") {
+				want = all[rapid.IntRange(0, len(all)-1).Draw(g.t, "reused-name")]
+			}
+			taken := map[string]bool{}
+			scope(holder, taken)
+			if !taken[want] && want != n.Name {
+				for i, k := range parent.Keys {
+					if k == n.Name {
+						parent.Keys[i] = want
+					}
+				}
+				n.Name = want
+			}
+		}
+		h := holder
+		if n.Kind != "choice" && n.Kind != "case" {
+			h = n
+		}
+		for _, c := range n.Children {
+			walk(h, n, c)
+		}
+	}
+	for _, c := range g.mod.Top {
+		walk(root, root, c)
 	}
 }
 
